@@ -78,7 +78,7 @@ class SigmaRuleBase:
         ):  # Try to convert rule id into UUID object, but keep it if not possible
             try:
                 self.id = UUID(self.id)
-            except ValueError:
+            except (ValueError, AttributeError, TypeError):
                 pass
 
     @classmethod
@@ -151,6 +151,8 @@ class SigmaRuleBase:
                         "Sigma rule identifier must be an UUID", source=source
                     )
                 )
+                if not isinstance(rule_id, str):
+                    rule_id = None
 
         # Rule name
         rule_name = rule.get("name")
@@ -161,6 +163,7 @@ class SigmaRuleBase:
                         "Sigma rule name must be a string", source=source
                     )
                 )
+                rule_name = None
             else:
                 if rule_name == "":
                     errors.append(
